@@ -216,7 +216,7 @@ def check(pid, tier, only=None, jobs=None, seed=0, quiet=False):
     n_obl = 0
     n_dis = 0
     witnessed = set()
-    replay_dir = os.path.join(VERIF, 'replays', pid)
+    replay_dir = os.path.join(VERIF, 'replays', pid) if REPO == '/repo' else os.path.join(tempfile.gettempdir(), 'symx_selftest_replays', pid)
 
     def acc(res):
         for k in tot:
@@ -373,8 +373,11 @@ def check(pid, tier, only=None, jobs=None, seed=0, quiet=False):
         'violations': len(status['violations']),
     }
     os.makedirs(os.path.join(VERIF, 'evidence'), exist_ok=True)
-    if not only:
+    if not only and REPO == '/repo':
         json.dump(evidence, open(os.path.join(VERIF, 'evidence', '%s.json' % pid), 'w'), indent=1)
+    elif not only:
+        # self-test on a mutated scratch copy: never touch the evidence of the real tree
+        json.dump(evidence, open(os.path.join(tempfile.gettempdir(), 'symx_selftest_%s.json' % pid), 'w'), indent=1)
     log('%s tier=%s obligations=%d discharged=%d witnesses=%d paths=%d solver_queries=%d solver_time=%.1fs wall=%.1fs'
         % (pid, tier, n_obl, n_dis, len(witnessed), tot['paths'], tot['solver_calls'], tot['solver_time_s'], wall))
     if status['violations']:
